@@ -20,7 +20,9 @@ def saturatingScale (m : Mode) (lo hi shift : Int) : R Int := do
     if nhi ≤ hiRange then
       arithI m 32 "unwrap.rs:44 hi_range - i32::MIN" (hiRange - minI 32)
     else
-      let a ← shrC m 32 "unwrap.rs:46 lo >> shift" lo shift
+      -- `(lo as i64 >> shift) as i32` (widened since the `fix:` commit, so shift = 32 is a legal amount)
+      let a64 ← shrC m 64 "unwrap.rs:47 lo as i64 >> shift" lo shift
+      let a := wrapI 32 a64
       let k ← arithU m 32 "unwrap.rs:46 32 - shift" (32 - shift)
       let b ← shlI m 32 "unwrap.rs:46 hi << (32 - shift)" hi k
       arithI m 32 "unwrap.rs:46 (lo >> shift) + (hi << (32 - shift))" (a + b)
